@@ -74,11 +74,13 @@ type scriptBody struct {
 	chunks   []val.V
 	ending   val.V
 	withLast bool
+
+	tailServed bool
 }
 
 func (s *scriptBody) end() error {
 	switch s.ending.At(0).Num() {
-	case 0:
+	case 0, 3:
 		return io.EOF
 	case 1:
 		return codeErr{s.ending.At(1).Num()}
@@ -94,7 +96,16 @@ func (s *scriptBody) end() error {
 	}
 }
 
+// oversizedTail is a line longer than the default maximum event size (64 KiB): ending kind 3 serves it after the scripted
+// bytes, so the attempt ends with bufio.ErrTooLong - an attempt error like any other (retried under the backoff policy).
+var oversizedTail = strings.Repeat("x", 70000)
+
 func (s *scriptBody) Read(p []byte) (int, error) {
+	if len(s.data) == 0 && s.ending.At(0).Num() == 3 && !s.tailServed {
+		s.tailServed = true
+		s.data = []byte(oversizedTail)
+		s.chunks = nil
+	}
 	if len(s.data) == 0 {
 		return 0, s.end()
 	}
@@ -110,7 +121,7 @@ func (s *scriptBody) Read(p []byte) (int, error) {
 	}
 	copy(p, s.data[:n])
 	s.data = s.data[n:]
-	if len(s.data) == 0 && s.withLast {
+	if len(s.data) == 0 && s.withLast && (s.ending.At(0).Num() != 3 || s.tailServed) {
 		return n, s.end()
 	}
 	return n, nil
@@ -397,9 +408,15 @@ func connStream(r *rng.R, body string, c *Ctx) val.V {
 	case k < 11:
 		ending = val.L(val.N(0))
 		c.Count("ending:eof")
-	case k < 17:
+	case k < 16:
 		ending = val.L(val.N(1), val.N(uint64(100+r.Intn(5))))
 		c.Count("ending:error")
+	case k == 16:
+		// the oversized line starts a group of its own: bufio gives up on the whole group, so fields that share it
+		// with the oversized line are never parsed (a retry field there has no effect), unlike fields before a read error
+		ending = val.L(val.N(3))
+		body += "\n\n"
+		c.Count("ending:oversized-event")
 	default:
 		ending = val.L(val.N(2), val.N(uint64(r.Intn(2))))
 		c.Count("ending:cancel")
